@@ -9,6 +9,7 @@
 mod alloc_track;
 mod drive;
 mod gen;
+mod hooksoff;
 mod props;
 mod refsem;
 mod util;
@@ -265,6 +266,11 @@ fn main() {
     }
     if a.prop == "c20-script" {
         props::c20::write_script(a.seed, a.cases.unwrap_or(200), a.hashes.as_deref().expect("--hashes <path> names the script file"));
+        return;
+    }
+    if a.prop == "hooksoff-fw" || a.prop == "hooksoff-sim" {
+        // monitor-transparency stage: cases and the hooked build's answers, for /verif/hookless to re-execute
+        hooksoff::dump(&a.prop["hooksoff-".len()..], a.seed, a.cases.unwrap_or(2000) as u64, a.hashes.as_deref().expect("--hashes <path> names the case file"));
         return;
     }
     if a.prop == "c20-miri" || a.prop == "c20-san" {
